@@ -239,7 +239,12 @@ class Engine(object):
         if z3.is_true(goal):
             self.obligations.append(Obligation(full, [], z3.BoolVal(True), kind, dict(info or {}, trivial=True)))
             return
-        self.obligations.append(Obligation(full, list(P.pc), goal, kind, info))
+        pc = list(P.pc)
+        ex = getattr(self, "_exclude_tags", None)
+        if ex:
+            tags = getattr(P, "tags", {})
+            pc = [c for c in pc if tags.get(c.get_id()) not in ex]     # dropping hypotheses only weakens the premises
+        self.obligations.append(Obligation(full, pc, goal, kind, info))
         P.assume(goal)
 
     def prove_spec(self, P, name, src, sctx, kind):
@@ -248,14 +253,21 @@ class Engine(object):
         facts the models add about sub-terms - quotient lemmas, pow10 laws - then speak about the very constants of the goal);
         what is assumed afterwards on P is the original, still quantified, formula."""
         node = self.parse(src) if isinstance(src, str) else src
-        if self._is_spec_call(node, "forall") or self._is_spec_call(node, "implies"):
-            self._prove_skolem(P.clone(), name, node, sctx, kind)
+        con = self.contracts.get(self.current) or {}
+        short = name.split(".")[-1]
+        self._exclude_tags = set(con.get("without", {}).get(short, ())) or None
+        tag = con.get("tag", {}).get(short)
+        try:
+            if self._is_spec_call(node, "forall") or self._is_spec_call(node, "implies"):
+                self._prove_skolem(P.clone(), name, node, sctx, kind)
+                for (p, v) in self.ev(node, P, sctx):
+                    P.assume(self.truth(v, P), tag)
+                return
             for (p, v) in self.ev(node, P, sctx):
-                P.assume(self.truth(v, P))
+                self.oblige(P, name, self.truth(v, P), kind)
             return
-        for (p, v) in self.ev(node, P, sctx):
-            self.oblige(P, name, self.truth(v, P), kind)
-
+        finally:
+            self._exclude_tags = None
     @staticmethod
     def _is_spec_call(node, fname):
         return (isinstance(node, ast.Call) and isinstance(node.func, ast.Name) and node.func.id == fname and node.args
@@ -285,8 +297,29 @@ class Engine(object):
             for k, sub in enumerate(node.values):
                 self._prove_skolem(Q, "%s.%d" % (name, k) if k else name, sub, sctx, kind)
             return
+        splits = getattr(self, "_splits", None) or []
         for (p, v) in self.ev(node, Q, sctx):
-            self.oblige(Q, name, self.truth(v, Q), kind)
+            goal = self.truth(v, Q)
+            if not splits:
+                self.oblige(Q, name, goal, kind)
+                continue
+            # case-split hints of the contract: the goal is proved once under each case (c, then not c); the cases are
+            # exhaustive by construction.  z3 decides each case at once where the undivided goal came back `unknown`.
+            conds = []
+            for src in splits:
+                try:
+                    r = self.ev(self.parse(src), Q, sctx)
+                    conds.append(self.truth(r[0][1], Q))
+                except (Unsupported, SpecError):
+                    pass
+            if not conds:
+                self.oblige(Q, name, goal, kind)
+                continue
+            c = conds[0]
+            for tag, cond in (("case", c), ("else", z3.Not(c))):
+                R = Q.clone()
+                R.assume(cond)
+                self.oblige(R, "%s.%s" % (name, tag), goal, kind)
 
     def ghost_index(self, P, lst, key, name):
         """Ghost inverse index of an INJECTIVE list: after proving that the elements of lst are pairwise distinct,
@@ -347,7 +380,7 @@ class Engine(object):
                 flag = self.heap_array(P, "%s.%s$set" % (cls, field), BoolS)
                 self.oblige(P, "safe.unset.%s#%d" % (field, self.site()), z3.Select(flag, ref), "safe")
         arr = self.heap_array(P, "%s.%s" % (cls, field), self.sort_of_kind(kind))
-        return self.wrap(z3.Select(arr, ref), kind)
+        return self.wrap(self.sel(arr, ref), kind)
 
     def hwrite(self, P, ref, cls, field, v):
         kind = self.field_kind(cls, field)
@@ -379,6 +412,7 @@ class Engine(object):
 
     def alloc(self, P, name, cls):
         r = self.fresh(name, RefS)
+        Engine._fresh_refs.add(r.get_id())
         a = self.alloc_arr(P)
         P.assume(r != NULL)
         P.assume(z3.Not(z3.Select(a, r)))
@@ -390,14 +424,18 @@ class Engine(object):
     def assume_allocated(self, P, term):
         P.assume(z3.Or(term == NULL, z3.Select(self.alloc_arr(P), term)))
 
-    def wf_axioms(self, P):
-        """Heap well-formedness: allocated objects only point to allocated objects (or null)."""
+    def wf_axioms(self, P, only=None):
+        """Heap well-formedness: allocated objects only point to allocated objects (or null).
+        `only`: restrict to the given heap keys (the arrays that were just havoced); the axioms of the untouched arrays
+        are already on the path."""
         a = self.alloc_arr(P)
         o = z3.Const("o!wf", RefS)
         i = z3.Const("i!wf", IntS)
         for cls, fields in self.types.items():
             for f, kind in fields.items():
                 if f.startswith("$"):
+                    continue
+                if only is not None and "%s.%s" % (cls, f) not in only:
                     continue
                 if kind.startswith("ref:") or kind.startswith("slist:"):
                     arr = self.heap_array(P, "%s.%s" % (cls, f), RefS)
@@ -407,6 +445,8 @@ class Engine(object):
                                                        z3.Or(tgt == NULL, z3.And(z3.Select(a, tgt), self.type_is(P, tgt, tcls)))),
                                        patterns=[z3.Select(arr, o)]))
         for ek in self.list_ekinds(P):
+            if only is not None and ("list.elems.%s" % self.ekey(ek)) not in only and self.lenkey(ek) not in only:
+                continue
             if ek.startswith("ref:") or ek.startswith("slist:"):
                 el = self.heap_array(P, "list.elems.%s" % self.ekey(ek), z3.ArraySort(IntS, RefS))
                 ln = self.heap_array(P, self.lenkey(ek), IntS)
@@ -416,6 +456,8 @@ class Engine(object):
                                                       z3.Or(tgt == NULL, z3.And(z3.Select(a, tgt), self.type_is(P, tgt, tcls)))),
                                    patterns=[tgt]))
         for ek in self.list_ekinds(P):
+            if only is not None and self.lenkey(ek) not in only:
+                continue
             ln = self.heap_array(P, self.lenkey(ek), IntS)
             P.assume(z3.ForAll([o], z3.Select(ln, o) >= 0, patterns=[z3.Select(ln, o)]))
 
@@ -437,18 +479,41 @@ class Engine(object):
     def esort(self, ekind):
         return self.sort_of_kind(ekind)
 
+    _fresh_refs = set()
+
+    @classmethod
+    def sel(cls, arr, idx):
+        """array read, with read-over-write resolved at construction when the written index is syntactically the read
+        index (or a distinct numeral): quantifier triggers and ground terms then have the same shape (an unresolved
+        select(store(..)) inside a trigger never matches the resolved ground term)"""
+        cur = arr
+        while z3.is_app(cur) and cur.decl().kind() == z3.Z3_OP_STORE:
+            i = cur.arg(1)
+            if i.get_id() == idx.get_id():
+                return cur.arg(2)
+            if (z3.is_int_value(i) and z3.is_int_value(idx)) and i.as_long() != idx.as_long():
+                cur = cur.arg(0)
+                continue
+            if i.get_id() in cls._fresh_refs and idx.get_id() in cls._fresh_refs:
+                # two different allocation constants denote different objects (the later one was not allocated when the
+                # earlier one already was)
+                cur = cur.arg(0)
+                continue
+            break
+        return z3.Select(cur, idx)
+
     def lenkey(self, ekind):
         return "list.len.%s" % self.ekey(ekind)
 
     def l_len(self, P, lst):
-        return z3.Select(self.heap_array(P, self.lenkey(lst.ekind), IntS), lst.t)
+        return self.sel(self.heap_array(P, self.lenkey(lst.ekind), IntS), lst.t)
 
     def l_elems(self, P, lst):
-        return z3.Select(self.heap_array(P, "list.elems.%s" % self.ekey(lst.ekind), z3.ArraySort(IntS, self.esort(lst.ekind))),
-                         lst.t)
+        return self.sel(self.heap_array(P, "list.elems.%s" % self.ekey(lst.ekind), z3.ArraySort(IntS, self.esort(lst.ekind))),
+                        lst.t)
 
     def l_get(self, P, lst, idx):
-        return self.wrap(z3.Select(self.l_elems(P, lst), idx), lst.ekind)
+        return self.wrap(self.sel(self.l_elems(P, lst), idx), lst.ekind)
 
     def l_store(self, P, lst, idx, val):
         """lst[idx] = val on an SMT list.  The new row is a FRESH array constant tied to the old row by pointwise
@@ -546,8 +611,21 @@ class Engine(object):
             raise Unsupported("module constant %s.%s forks" % (mod, name))
         val = res[0][1]
         P.ghost[key] = val
+        # module-level containers are treated as READ-ONLY literals (each path re-evaluates the literal): a function that
+        # writes into one is outside this abstraction and leaves tier T1 (see guard_global_write)
+        self._global_ids = getattr(self, "_global_ids", set())
+
+        def mark(v, depth=0):
+            if isinstance(v, Handle) and v.kind in ("list", "dict", "obj"):
+                self._global_ids.add(v.id)
+                if depth < 3:
+                    c = P.store.get(v.id)
+                    for x in (c.values() if isinstance(c, dict) else (c or ())):
+                        mark(x, depth + 1)
+        mark(val)
         # later module-level statements of the form  NAME[key] = value  populate the table (d3_time[...] = ...)
         if isinstance(val, Handle) and val.kind == "dict":
+            self._in_module_init = True
             for st in self.repo.mods[mod].body:
                 if (isinstance(st, ast.Assign) and len(st.targets) == 1 and isinstance(st.targets[0], ast.Subscript)
                         and isinstance(st.targets[0].value, ast.Name) and st.targets[0].value.id == name):
@@ -557,6 +635,7 @@ class Engine(object):
                     d = dict(P.get(val))
                     d[self.dict_key(r2[0][1][0])] = r2[0][1][1]
                     P.put(val, d)
+            self._in_module_init = False
         return val
 
     # ------------------------------------------------------------------ truthiness
@@ -794,20 +873,20 @@ class Engine(object):
             return [(P, P.new("list", P.get(a) + P.get(b)))]
         if isinstance(op, ast.Add) and isinstance(a, Handle) and a.kind == "list" and isinstance(b, SList):
             xs = P.get(a)
-            R = self.new_slist(P, b.ekind, "concat")
+            RL = self.new_slist(P, b.ekind, "concat")
             nb = self.l_len(P, b)
-            self.l_set_len(P, R, nb + len(xs))
+            self.l_set_len(P, RL, nb + len(xs))
             arr = self.fresh("concat_el", z3.ArraySort(IntS, self.esort(b.ekind)))
             for k, x in enumerate(xs):
                 P.assume(z3.Select(arr, z3.IntVal(k)) == self.unwrap(x, b.ekind))
             jv = z3.Const("j!cc", IntS)
             src = self.l_elems(P, b)
-            P.assume(z3.ForAll([jv], z3.Implies(z3.And(0 <= jv, jv < nb), z3.Select(arr, jv + len(xs)) == z3.Select(src, jv)),
-                               patterns=[z3.Select(arr, jv + len(xs))]))
+            # one direction only, triggered by reads of the NEW list (an additional offset-pattern axiom src[j] -> new[j+k]
+            # formed a matching loop with this one: 200 000 instances)
             P.assume(z3.ForAll([jv], z3.Implies(z3.And(len(xs) <= jv, jv < nb + len(xs)), z3.Select(arr, jv) == z3.Select(src, jv - len(xs))),
                                patterns=[z3.Select(arr, jv)]))
-            self.l_set_elems(P, R, arr)
-            return [(P, R)]
+            self.l_set_elems(P, RL, arr)
+            return [(P, RL)]
         if isinstance(op, ast.Mult) and isinstance(a, Handle) and a.kind == "list" and isinstance(b, Num):
             n = z3.simplify(b.t)
             if z3.is_int_value(n):
@@ -1127,10 +1206,23 @@ class Engine(object):
                 self.oblige(P, "safe.index#%d" % self.site(), z3.And(k.t >= -len(xs), k.t < len(xs)), "safe")
             if not xs:
                 return []
-            res = xs[-1]
-            for j in range(len(xs) - 2, -1, -1):
-                res = self.ite(z3.Or(k.t == j, k.t == j - len(xs)), xs[j], res)
-            return [(P, res)]
+            try:
+                res = xs[-1]
+                for j in range(len(xs) - 2, -1, -1):
+                    res = self.ite(z3.Or(k.t == j, k.t == j - len(xs)), xs[j], res)
+                return [(P, res)]
+            except Unsupported:
+                if ctx.spec:
+                    raise
+                # elements that cannot be merged into one conditional value (objects, closures): one path per index
+                outs = []
+                for j in range(len(xs)):
+                    cond = z3.Or(k.t == j, k.t == j - len(xs))
+                    if self.feasible(P, cond):
+                        q = P.clone()
+                        q.assume(cond)
+                        outs.append((q, xs[j]))
+                return outs
         if isinstance(o, SList):
             if not (isinstance(k, Num) and k.isint):
                 raise Unsupported("index %r" % (k,))
@@ -1231,10 +1323,14 @@ class Engine(object):
             i = z3.Const("i!flt", IntS)
             lel = self.l_elems(P, L)
             rk = z3.Select(relems, k)
+            # sigma: position in L of the k-th kept element; tau: position in the result of a kept element of L.
+            # tau(sigma(k)) == k makes sigma injective by congruence (distinct positions of the result come from distinct
+            # positions of L).  Order preservation (sigma strictly increasing) is true of Python's comprehension but is NOT
+            # stated: as a two-variable trigger it caused a matching explosion (200 000 instances) and no contract needs it.
             P.assume(z3.ForAll([k], z3.Implies(z3.And(0 <= k, k < m),
-                                               z3.And(0 <= sig(k), sig(k) < n, rk == z3.Select(lel, sig(k)), cond_at(rk))),
+                                               z3.And(0 <= sig(k), sig(k) < n, rk == z3.Select(lel, sig(k)), cond_at(rk),
+                                                      tau(sig(k)) == k)),
                                patterns=[rk]))
-            P.assume(z3.ForAll([k, i], z3.Implies(z3.And(0 <= k, k < i, i < m), sig(k) < sig(i)), patterns=[z3.MultiPattern(sig(k), sig(i))]))
             li = z3.Select(lel, i)
             P.assume(z3.ForAll([i], z3.Implies(z3.And(0 <= i, i < n, cond_at(li)),
                                                z3.And(0 <= tau(i), tau(i) < m, z3.Select(relems, tau(i)) == li, sig(tau(i)) == i)),
@@ -1295,9 +1391,11 @@ class Engine(object):
             P.old = saved_old
             rj = z3.Select(self.l_elems(P, R), jv)
             P.assume(z3.ForAll([jv], z3.Implies(z3.And(0 <= jv, jv < n), z3.And(*body)), patterns=[rj]))
-            kv = z3.Const("k!map", IntS)
-            rkk = z3.Select(self.l_elems(P, R), kv)
-            P.assume(z3.ForAll([jv, kv], z3.Implies(z3.And(0 <= jv, jv < kv, kv < n), rj != rkk), patterns=[z3.MultiPattern(rj, rkk)]))
+            # the results are pairwise distinct (each call allocated its own object): stated through a fresh inverse index
+            # (midx[R[j]] == j, single-variable trigger) - distinctness then follows by congruence; the pairwise form
+            # (two-variable trigger over every pair of reads of R) was measured to explode the instantiation search
+            midx = self.fresh("mapidx", z3.ArraySort(RefS, IntS))
+            P.assume(z3.ForAll([jv], z3.Implies(z3.And(0 <= jv, jv < n), z3.Select(midx, rj) == jv), patterns=[rj]))
             self.assume_used("contract:" + f.qual)
             return (P, R)
         raise Unsupported("this comprehension over a symbolic-length list")
@@ -1388,6 +1486,17 @@ class Engine(object):
     def ev_Call(self, e, P, ctx):
         if isinstance(e.func, ast.Name) and e.func.id in ("old", "forall", "exists") and ctx.spec:
             return self.spec_form(e, P, ctx)
+        if isinstance(e.func, ast.Name) and e.func.id == "implies" and ctx.spec and len(e.args) == 2:
+            # lazy implication: a statically false hypothesis (e.g. `v is not None` while v is None) guards the conclusion
+            out = []
+            for (p, a) in self.ev(e.args[0], P, ctx):
+                ta = self.truth(a, p)
+                if z3.is_false(z3.simplify(ta)):
+                    out.append((p, B(True)))
+                    continue
+                for (p2, b) in self.ev(e.args[1], p, ctx):
+                    out.append((p2, Bool(z3.Implies(ta, self.truth(b, p2)))))
+            return out
         out = []
         argn = []
         star = False
@@ -1504,12 +1613,16 @@ class Engine(object):
             return []
         # prefer list-element reads (nested selects on the elems arrays) over plain field reads: take up to 2 per var
         per = []
+        single = len(ids) == 1
         for i in ids:
-            cands = sorted(found[i], key=lambda t: (-len(str(t.arg(0))), str(t)))[:2]
-            per.append(cands)
+            uniq = {}
+            for t in found[i]:
+                uniq.setdefault(t.get_id(), t)
+            cands = sorted(uniq.values(), key=lambda t: (-len(str(t.arg(0))), str(t)))
+            per.append(cands[:10] if single else cands[:2])
         pats = []
         import itertools
-        for combo in itertools.islice(itertools.product(*per), 4):
+        for combo in itertools.islice(itertools.product(*per), 10 if single else 4):
             pats.append(combo[0] if len(combo) == 1 else z3.MultiPattern(*combo))
         return pats
 
@@ -1675,7 +1788,7 @@ class Engine(object):
         for key in con.get("modifies", []):
             self.havoc_heap(P, key)
         if con.get("modifies"):
-            self.wf_after_havoc(P, pre, con.get("allocates", ()))
+            self.wf_after_havoc(P, pre, con.get("allocates", ()), con.get("modifies"))
         alts = con.get("returns_cases") or [{"returns": con.get("returns"), "ensures": []}]
         outs = []
         for ai, alt in enumerate(alts):
@@ -1711,10 +1824,10 @@ class Engine(object):
         self.assume_used("contract:" + qual)
         return [(P, result)]
 
-    def wf_after_havoc(self, P, pre, allocates=()):
+    def wf_after_havoc(self, P, pre, allocates=(), modified=None):
         """allocation only grows, and only by objects of the classes the contract says it may allocate"""
         if not allocates:
-            self.wf_axioms(P)
+            self.wf_axioms(P, only=set(modified) if modified is not None else None)
             return
         a0 = self.alloc_arr(pre)
         self.havoc_heap(P, "$alloc")
@@ -1744,7 +1857,7 @@ class Engine(object):
                     self.heap_array(P, key, z3.ArraySort(IntS, self.esort(ek)))
                 elif key.endswith("$set"):
                     self.heap_array(P, key, BoolS)
-                elif key.endswith("$lastpos") or key.endswith("$vidx"):
+                elif key.endswith("$lastpos") or key.endswith("$vidx") or key.endswith("$nidx"):
                     self.heap_array(P, key, IntS)
                 elif key.endswith("$lastlist"):
                     self.heap_array(P, key, RefS)
@@ -1948,6 +2061,7 @@ class Engine(object):
         raise Unsupported("assignment target %s" % type(t).__name__)
 
     def setattr(self, P, ctx, o, attr, v):
+        self.guard_global_write(o)
         if isinstance(o, Handle) and o.kind == "obj":
             d = dict(P.get(o))
             d[attr] = v
@@ -1960,7 +2074,12 @@ class Engine(object):
             return
         raise Unsupported("attribute store on %r" % (o,))
 
+    def guard_global_write(self, o):
+        if isinstance(o, Handle) and o.id in getattr(self, "_global_ids", ()) and not getattr(self, "_in_module_init", False):
+            raise Unsupported("write into a module-level object (global state is outside the model)")
+
     def setitem(self, P, ctx, o, k, v):
+        self.guard_global_write(o)
         if isinstance(o, Handle) and o.kind == "dict":
             d = dict(P.get(o))
             d[self.dict_key(k)] = v
@@ -2174,7 +2293,7 @@ class Engine(object):
         for key in spec.get("modifies", []):
             self.havoc_heap(H, key)
         if spec.get("modifies"):
-            self.wf_after_havoc(H, P, spec.get("allocates", ()))
+            self.wf_after_havoc(H, P, spec.get("allocates", ()), spec.get("modifies"))
         if kind == "for":
             iv = self.lookup(H, ctx, idxname)
             if step == 1:
@@ -2234,7 +2353,11 @@ class Engine(object):
                             raise SpecError("loop %d of %s writes heap fields %s not in its modifies clause"
                                             % (k, fn, sorted(undeclared)))
                         for (nm, src) in invs:
-                            self.prove_spec(r, "loop%d.inv.preserve.%s" % (k, nm), src, sctx, "inv")
+                            self._splits = (spec.get("preserve_splits") or {}).get(nm)
+                            try:
+                                self.prove_spec(r, "loop%d.inv.preserve.%s" % (k, nm), src, sctx, "inv")
+                            finally:
+                                self._splits = None
                         if dec0 is not None:
                             d1 = self.ev(self.parse(spec["dec"]), r, sctx)[0][1]
                             self.oblige(r, "loop%d.variant" % k,
